@@ -125,7 +125,16 @@ class DataManager(MpfController):
                 time.sleep(0.2)
             self._dirty.clear()
 
-            data = copy.deepcopy(self.data)
+            try:
+                # the main thread may change self.data while we copy it. deepcopy then raises
+                # "RuntimeError: dictionary changed size during iteration". try again later
+                data = copy.deepcopy(self.data)
+            except Exception as e:  # pylint: disable=broad-exception-caught
+                self.info_log("ERROR copying data for file %s: %s. Will retry.", self.filename, e)
+                self._dirty.set()
+                time.sleep(self.min_wait_secs)
+                continue
+
             # save data
             try:
                 FileManager.save(self.filename, data)
